@@ -14,6 +14,19 @@ def message_sites(prog, scope):
     return out
 
 
+def _inline_decisions(f):
+    """(switch, raising block, comparison calls) for every Error::AuthorMismatch built in `f` itself on an (in)equality with the
+    credential identity"""
+    out = []
+    for bb, s in f.aggregates("Error", "AuthorMismatch"):
+        for w in A.control_dependent_switches(f, bb):
+            _, calls, _ = f.depends_on(A._opl(f.term(w)["discr"]))
+            cmps = [c for c in calls if c.name in ("eq", "ne")]
+            if cmps and any(c.name == "identity" and last_seg(c.self_adt) == "BasicCredential" for c in calls):
+                out.append((w, bb, cmps))
+    return out
+
+
 def clause_author_guard(prog, rep):
     core = K.core_scope(prog)
     roots = prog.find(adt="MDK", name="process_message", crate="mdk_core")
@@ -26,6 +39,17 @@ def clause_author_guard(prog, rep):
     for f, bb, s in sites:
         ga = A.GuardAnalysis(prog, is_guard, K.api_boundary, core, mode="success")
         ok, chain = ga.site_ok(f, bb)
+        # the guard written out in the function itself (a helper of a later tree folded into it): every path to the record takes the
+        # passing side of the comparison that decides AuthorMismatch
+        inl = _inline_decisions(f)
+        if not ok and inl:
+            edges = set()
+            for w, e_bb, cmps in inl:
+                for sx in f.succs()[w]:
+                    if e_bb not in f.reachable_from(sx, frozenset([w])):
+                        edges.add((w, sx))
+            if edges and bb not in A.reach_without_edges(f, 0, edges):
+                ok, chain = True, None
         rep.check(ok, "author-bound", "MDK::process_message/Message/AuthorMismatch-guard",
                   "a checked AuthorMismatch guard success-dominates the construction of the stored Message",
                   "a Message is built (and saved) from a decrypted rumor without a checked author-binding guard on every path",
@@ -35,8 +59,8 @@ def clause_author_guard(prog, rep):
         raisers = set(g.path for g in prog.nontest_fns(("mdk_core",)) if any(True for _ in g.aggregates("Error", "AuthorMismatch")))
         leaf = [(prog.fns[p], c) for p in sorted(scope) for c in prog.fns[p].live_calls() if any(t.path in raisers for t in prog.call_targets(c))]
         gcs = [c for c in f.live_calls() if is_guard(c)]
-        wired = False
-        for g, c in leaf:
+
+        def fed(g, c):
             ogs = [A.origins(prog, g, a["p"][0], scope=core) for a in c.args if "p" in a]
             # the key handed to the guard IS the decoded rumor's `pubkey` field (copy provenance, not mere dependence: the
             # credential's own origins are broad enough to mention every field)
@@ -47,8 +71,14 @@ def clause_author_guard(prog, rep):
                     if "pubkey" in pr_k["fields"] and pr_k["calls"] and all(x.name == "from_json" for x in pr_k["calls"]) and not pr_k["params"]:
                         has_rumor = True
             has_cred = any(og.has_call(lambda x: x.name == "credential" and last_seg(x.self_adt) == "ProcessedMessage") for og in ogs)
-            if has_rumor and has_cred:
-                wired = True
+            return has_rumor and has_cred
+
+        wired = any(fed(g, c) for g, c in leaf)
+        for w, e_bb, cmps in inl:
+            # written out in place: the comparison's own operands, and the credential conversion its outcome depends on
+            wired = wired or any(fed(f, c) for c in cmps)
+            _, dcalls, _ = f.depends_on(A._opl(f.term(w)["discr"]))
+            gcs = gcs + [c for c in dcalls if c.name == "try_from" and any("p" in a and "Credential" in f.locals[a["p"][0]] for a in c.args)]
         # copy provenance: the credential handed to the guard IS the one authenticated by the MLS layer for this message
         # (not, e.g., whoever currently occupies the sender's leaf in the ratchet tree)
         exact = False
